@@ -2,6 +2,7 @@ mod common;
 mod c01;
 mod c02;
 mod c03;
+mod c04;
 mod c06;
 mod c07;
 mod c08;
@@ -75,6 +76,7 @@ fn main() {
         "c01" => c01::run(&opts),
         "c02" => c02::run(&opts),
         "c03" => c03::run(&opts),
+        "c04" => c04::run(&opts),
         "c06" => c06::run(&opts),
         "c07" => c07::run(&opts),
         "c08" => c08::run(&opts),
